@@ -43,7 +43,8 @@ def handle_raise(expr: ast.Raise, **kwargs) -> Token | None:
             return None
         # raised an instance of an exception
         name = get_name(expr.exc.func)
-        if not name or name[0].islower():
+        # a call of a function (lower-case name, maybe of a module) is not an exception class
+        if not name or name.split('.')[-1][0].islower():
             return None
     exc = getattr(builtins, name, name)
     return Token(value=exc, line=expr.exc.lineno, col=expr.exc.col_offset)
